@@ -37,10 +37,7 @@ _Bool g_has_d;
 int   g_watch_calls, g_watch_bad_arg, g_other_got_watched;
 void * g_leaf;                   /* the leaf of g_k seen with its real layout (NULL: the thread never created it) */
 
-static void D_watch(void * v) {
-  g_watch_calls++;
-  if (v != g_val) g_watch_bad_arg++;
-}
+static void D_watch(void * v);            /* defined below (needs the leaf accessors) */
 static void D_other(void * v) {
   if (v != 0 && v == g_val) g_other_got_watched++;
 }
@@ -193,6 +190,14 @@ static myth_tls_tree_node_t * setup_level(int depth, myth_key_t base) {
   return n;
 }
 
+static void D_watch(void * v) {
+  g_watch_calls++;
+  if (v != g_val) g_watch_bad_arg++;
+  /* destructors are user code: they may re-enter the exit path (myth_exit, a cancellation point with a cancellation
+     pending), which walks the tree again -- "exactly once" then rests on the slot having been cleared BEFORE the call */
+  __CPROVER_assert(g_leaf == 0 || ENTRY_AT(LEAFN(g_leaf), g_k & (myth_tls_tree_node_n_entries_in_leaf - 1)) == 0,
+                   "C11: the slot of key k is cleared before the destructor of k is called (a destructor that re-enters the exit path does not see the value again)");
+}
 void h_destructors_rec(void) {
   int depth = DEPTH; myth_key_t base = nondet_int();      /* one job per level: 0,1,2 internal, 3 leaf */
   __CPROVER_assume(0 <= base && base < NK && base % STRIDE(depth) == 0 && base + STRIDE(depth) <= NK);
